@@ -3,6 +3,7 @@ names the class.  Model: coq/Own/World.v (value trees), theorems coq/Properties/
 import os
 import vlib
 import ownlib
+import bigsize
 from ownlib import hx, hxs
 
 
@@ -75,7 +76,8 @@ class C05(vlib.PropertyCheck):
                        'type operation on a non-NULL object; distinct = distinct case lines')
     assumptions = ['programs use only handles they hold and apply operations to objects of the right class (anything else is '
                    'refused identically by model and harness before the library is called)',
-                   'texts are NUL-free; object sizes below 2^31',
+                   'texts are NUL-free; object sizes below 2^31 for the model runs - mbuff and str objects of 2^31-1 bytes and more are tied on the '
+                   'implementation side only (comp against the lexicographic order computed from the lengths; the value-tree model is too slow there)',
                    'comparisons across different classes (other than objpair against a bare key) are type confusion and outside '
                    'the quantifier',
                    'the value of a regexp is (pattern text, flag word); what pcre compiles from such a value is an oracle table '
@@ -118,7 +120,10 @@ class C05(vlib.PropertyCheck):
               'the object matches, with one class state per compile flag whose pattern makes the flag decide a probe; '
               'all pairs of pools of objects per class including NULL with the order laws '
               're-checked on the implementation\'s own answers; address-ordered classes compared exactly in a second build whose '
-              'allocator is monotone).'),
+              'allocator is monotone).  mbuff and str objects of 2^31-1 up to 3*2^31+5 bytes (storage pointed at sparse mappings through the '
+              'public struct members) are compared pairwise through the class comp method on the implementation only, against the '
+              'lexicographic order computed from the lengths, and duplicated (equal, own storage, independent under a write to the copy and its '
+              'deletion); the theorems cover those lengths, the extracted model is not run there.'),
         design_ref='DESIGN.md section 7, C05')
 
     # ---- builds ----
@@ -245,7 +250,42 @@ class C05(vlib.PropertyCheck):
     def nontrivial(self, case, mout):
         return 'FAULT' not in mout and any(op.split(' ')[0] in ('dup', 'comp', 'type') for op in ownlib.ops_of(case))
 
+    # ---- objects of 2^31-1 bytes and more (checks/bigsize.py; the "big" case of harness/c05.c; harness/bigmap.h) ----
+    def big_cases(self, tier):
+        P31, P32 = 1 << 31, 1 << 32
+        if tier == 'quick':
+            mb = [(1, P31 + 2), (1, P32 + 1), (2, P31), (0, P31 - 1), (P31 - 1, P31), (P31, P31 + 2), (P31 + 2, P32 + 1), (P31 - 1, P32 + 1)]
+            st = [(1, P31 + 2), (P31 - 1, P31 + 2)]
+            poked = [('mbuff', P31 + 2, P31 + 1), ('mbuff', P32 + 1, P32), ('str', P31 + 2, P31)]
+        else:
+            lens = [0, 1, 2, P31 - 1, P31, P31 + 2, P32 - 1, P32, P32 + 1, 3 * P31 + 5]
+            mb = [(a, b) for i, a in enumerate(lens) for b in lens[i + 1:] if b >= P31 - 1]
+            sl = [1, P31 - 1, P31, P31 + 2, P32 + 1]
+            st = [(a, b) for i, a in enumerate(sl) for b in sl[i + 1:]]
+            poked = [(k, n, off) for k in ('mbuff', 'str') for n in (P31 + 2, P32 + 1) for off in (P31 - 1, P31 + 1, P32) if off < n]
+        cases = ['big comp mbuff z%d z%d' % ab for ab in mb] + ['big comp str z%d z%d' % ab for ab in st]
+        for (k, n, off) in poked:
+            # one differing byte beyond offset 2^31 / 2^32: against the unpoked object of the same length, and against the
+            # shorter object that ends just before it
+            cases.append('big comp %s z%d p%d@%d' % (k, n, n, off))
+            cases.append('big comp %s p%d@%d z%d' % (k, n, off, off))
+        # dup of such an object: the copy really exists (the case commits its length; checks/bigsize.py runs at most two at a time)
+        dups = [('mbuff', P31 + 2, P31 + 1)]
+        if tier != 'quick':
+            dups += [('mbuff', P31 - 1, P31 - 2), ('mbuff', P31, 0), ('mbuff', P32 + 1, P32), ('str', P31 - 1, 7), ('str', P31 + 2, P31 + 1)]
+        return ['big dup %s p%d@%d -' % d for d in dups] + cases
+
     def extra_steps(self, ctx):
+        big = bigsize.big_pass(self, ctx, self.big_cases(ctx['tier']), lambda c: 'BIG:ok', heavy=lambda c: c.startswith('big dup '),
+                               what=('mbuff and str objects of length 0, 1, 2 and 2^31-1 .. 3*2^31+5 whose storage pointer is set to a sparse '
+                                     'mapping through the public struct members: the class comp method (SPIF_OBJ_COMP and spif_<class>_comp) on '
+                                     'pairs, both ways round and on each object with itself, against the lexicographic order computed from the '
+                                     'lengths (equal bytes: the sign of the length difference; one differing byte beyond offset 2^31 / 2^32) - '
+                                     'answers equal to that order are reflexive, antisymmetric and transitive; SPIF_OBJ_DUP of such objects (same class, own '
+                                     'storage, same length and bytes, a write to the copy leaves the original alone, the copy deleted)'))
+        return big + self.extra_steps_addr(ctx)
+
+    def extra_steps_addr(self, ctx):
         """address-ordered comparisons: the same cases in the build whose allocator is monotone"""
         out = []
         cases = [c for c in ownlib.corpus_cases(self.id) + getattr(self, '_cases', []) if ' comp ' in c]
